@@ -20,6 +20,7 @@ import torch
 import z3
 
 INT_AS_REAL = True
+F_NATIVE_UF = False  # F mode: Ackermannise too (explicit congruence) - faster than UF+FP theory combination in z3
 RNE = z3.RNE()
 F32 = z3.Float32()
 F64 = z3.Float64()
@@ -66,6 +67,7 @@ class Context:
         self.congruence = True  # True (all pairs) | False | 'pruned' (numeric-fingerprint filtered)
         self.fp_pins = {}
         self.fp_alias = {}  # const id -> name used for its pseudo-random fingerprint value
+        self.decisions = []  # (condition term, outcome) of every symbolic Python-level branch on this path
         self.lemmas = []  # on-request lemma instances (each must be justified by the harness)
 
     def fresh_name(self, base):
@@ -252,7 +254,31 @@ def _fp_const_fold(op, a, b):
     return z3.FPVal(float(r), a.sort())
 
 
+LIFT_ITE = True
+
+
+def _is_ite(t):
+    return z3.is_app_of(t, z3.Z3_OP_ITE)
+
+
+def _lift2(op, a, b):
+    """op(If(c,x,y), b) -> If(c, op(x,b), op(y,b)) when exactly one operand is a top-level ite (keeps abstracted
+    function applications free of ites, so that contextual simplification never has to create variant applications)"""
+    if not LIFT_ITE:
+        return None
+    ia, ib = _is_ite(a), _is_ite(b)
+    # only against a numeral: lifting against arbitrary terms would turn sums of masked terms into exponential ite trees
+    if ia and not ib and is_num(b):
+        return mk_ite(a.arg(0), op(a.arg(1), b), op(a.arg(2), b))
+    if ib and not ia and is_num(a):
+        return mk_ite(b.arg(0), op(a, b.arg(1)), op(a, b.arg(2)))
+    return None
+
+
 def mk_add(a, b):
+    r = _lift2(mk_add, a, b)
+    if r is not None:
+        return r
     if z3.is_fp(a):
         if is_num(a) and is_num(b):
             return _fp_const_fold(lambda x, y: x + y, a, b)
@@ -269,6 +295,9 @@ def mk_add(a, b):
 
 
 def mk_sub(a, b):
+    r = _lift2(mk_sub, a, b)
+    if r is not None:
+        return r
     if z3.is_fp(a):
         if is_num(a) and is_num(b):
             return _fp_const_fold(lambda x, y: x - y, a, b)
@@ -294,6 +323,9 @@ def mk_mul(a, b):
                     qt, qe = simp_under(q, c, True), simp_under(q, c, False)
                     zero = z3.FPVal(0.0, q.sort())
                     return mk_ite(c, qt if vt == 1.0 else mk_mul(zero, qt), qe if ve == 1.0 else mk_mul(zero, qe))
+        r = _lift2(mk_mul, a, b)
+        if r is not None:
+            return r
         return z3.fpMul(RNE, a, b)
     va, vb = num_value(a), num_value(b)
     if va is not None and vb is not None:
@@ -316,10 +348,16 @@ def mk_mul(a, b):
             if vt is not None and ve is not None and {vt, ve} <= {0, 1}:
                 zero = _mk_num_like(0, q)
                 return mk_ite(p.arg(0), q if vt == 1 else zero, q if ve == 1 else zero)
+    r = _lift2(mk_mul, a, b)
+    if r is not None:
+        return r
     return a * b
 
 
 def mk_div(a, b):
+    r = _lift2(mk_div, a, b)
+    if r is not None:
+        return r
     if z3.is_fp(a):
         if is_num(a) and is_num(b):
             return _fp_const_fold(lambda x, y: x / y, a, b)
@@ -336,6 +374,8 @@ def mk_div(a, b):
 
 
 def mk_neg(a):
+    if LIFT_ITE and _is_ite(a):
+        return mk_ite(a.arg(0), mk_neg(a.arg(1)), mk_neg(a.arg(2)))
     if z3.is_fp(a):
         return z3.fpNeg(a)
     va = num_value(a)
@@ -523,6 +563,12 @@ def apply_fn(fname, args, sort=None):
     c = CTX
     args = tuple(args)
     sort = sort if sort is not None else args[0].sort()
+    if LIFT_ITE and len(args) <= 2 and not fname.startswith("opaque"):
+        ites = [k for k, a in enumerate(args) if _is_ite(a)]
+        if len(ites) == 1:
+            k = ites[0]
+            a = args[k]
+            return mk_ite(a.arg(0), apply_fn(fname, args[:k] + (a.arg(1),) + args[k + 1 :], sort), apply_fn(fname, args[:k] + (a.arg(2),) + args[k + 1 :], sort))
     app = _decl(fname, [a.sort() for a in args], sort)(*args)
     if app.get_id() in c.app_index:
         return app
@@ -607,10 +653,16 @@ def exp_sum_lemma(a, b):
 
 # transcendental wrappers used by the tensor handlers -------------------------------------------
 def t_exp(x):
+    v = num_value(x)
+    if v is not None and v == 0 and not z3.is_fp(x):
+        return real_val(1)
     return apply_fn("exp", (x,))
 
 
 def t_log(x):
+    v = num_value(x)
+    if v is not None and v == 1 and not z3.is_fp(x):
+        return real_val(0)
     return apply_fn("log", (x,))
 
 
@@ -726,11 +778,26 @@ def ack(t):
     return memo[root.get_id()][1]
 
 
-def ack_congruence():
-    """explicit congruence instances between the Ackermann constants (all pairs, or fingerprint-pruned)"""
+def ack_congruence(present=None):
+    """explicit congruence instances between the Ackermann constants (all pairs, or fingerprint-pruned); only constants
+    occurring in the query (`present`: ids) are related"""
     c = CTX
     if not c.congruence:
         return []
+    if present is not None:
+        # close under "occurs in the arguments of a present application"
+        present = set(present)
+        changed = True
+        while changed:
+            changed = False
+            for apps in c.ack_apps.values():
+                for args, k, _ in apps:
+                    if k.get_id() in present:
+                        for a in args:
+                            cs = consts_of(a)
+                            if not cs <= present:
+                                present |= cs
+                                changed = True
     fps = None
     if c.congruence == "pruned":
         try:
@@ -749,8 +816,12 @@ def ack_congruence():
                 sig = None
         for i in range(n):
             ai, ki, _ = apps[i]
+            if present is not None and ki.get_id() not in present:
+                continue
             for j in range(i + 1, n):
                 aj, kj, _ = apps[j]
+                if present is not None and kj.get_id() not in present:
+                    continue
                 if len(ai) != len(aj) or ki.sort() != kj.sort():
                     continue
                 if sig is not None:
@@ -775,14 +846,17 @@ def check_sat(formulas, timeout_ms=30000, tactics=None):
     for tac in tactics:
         t0 = time.time()
         try:
-            if tac == "default" and c.mode == "F":
+            if tac == "default" and c.mode == "F" and F_NATIVE_UF:
                 s = z3.Solver()
                 s.set("timeout", int(timeout_ms))
                 s.add(*formulas)
             else:
                 if acked is None:
                     acked = [ack(f) for f in formulas]
-                    acked = acked + ack_congruence()
+                    present = set()
+                    for f in acked:
+                        present |= consts_of(f)
+                    acked = acked + ack_congruence(present)
                 s = z3.Solver() if tac == "default" else z3.Tactic(tac).solver()
                 s.set("timeout", int(timeout_ms))
                 s.add(*acked)
@@ -807,7 +881,7 @@ def prove(goal, timeout_ms=30000, extra=(), tactics=None):
     if z3.is_true(goal):
         return Verdict("unsat", None, 0.0, "trivial")
     bg = background() + list(extra)
-    if CTX.mode == "F" and SLICE_F:
+    if SLICE_F:
         # cone of influence: dropping hypotheses is sound for proving; a sat answer is re-checked with everything
         sliced = cone_of_influence(goal, bg)
         v = check_sat(sliced + [mk_not(goal)], timeout_ms, tactics)
@@ -893,14 +967,17 @@ def decide(cond) -> bool:
     if not can_t and not can_f:
         raise Infeasible()
     if not can_f:
+        c.decisions.append((cond, True, "forced"))
         return True
     if not can_t:
+        c.decisions.append((cond, False, "forced"))
         return False
     i = len(c.taken)
     k = c.prefix[i] if i < len(c.prefix) else 0
     c.taken.append((k, 2))
     choice = k == 0
     c.pc.append(cond if choice else z3.Not(cond))
+    c.decisions.append((cond, choice, "fork"))
     return choice
 
 
